@@ -143,7 +143,14 @@ class PyEval(MiniEval):
                     got = self.ev(val, {})
                 except Unsupported:
                     break
-                if isinstance(got, Opaque) or (isinstance(got, (list, tuple, set, dict)) and any(isinstance(x, Opaque) for x in got)):
+                def _class_refs(v_: ast.AST) -> bool:
+                    # `ast.Assign | ast.AnnAssign`, `(A, B)`: a union / tuple of class references, as used in isinstance tests
+                    if isinstance(v_, ast.BinOp) and isinstance(v_.op, ast.BitOr):
+                        return _class_refs(v_.left) and _class_refs(v_.right)
+                    if isinstance(v_, ast.Tuple):
+                        return bool(v_.elts) and all(_class_refs(x) for x in v_.elts)
+                    return isinstance(v_, (ast.Name, ast.Attribute)) and bool(dotted(v_))
+                if isinstance(got, Opaque) or (isinstance(got, (list, tuple, set, dict)) and any(isinstance(x, Opaque) for x in got) and not _class_refs(val)):
                     break
                 mc[ident] = got
                 return mc[ident]
@@ -223,8 +230,16 @@ class PyEval(MiniEval):
             return a not in b
         if isinstance(a, Tok) or isinstance(b, Tok):
             return self.tok_compare(op, a, b)
-        num = (int, float)
-        if not (isinstance(a, num) and isinstance(b, num)):
+        def orderable(x: Any, y: Any) -> bool:
+            # numbers (bools included, as in Python), strings, and tuples / lists of those compared lexicographically
+            if isinstance(x, (int, float)) and isinstance(y, (int, float)):
+                return True
+            if isinstance(x, str) and isinstance(y, str):
+                return True
+            if (isinstance(x, tuple) and isinstance(y, tuple)) or (isinstance(x, list) and isinstance(y, list)):
+                return all(orderable(p, q) for p, q in zip(x, y))
+            return False
+        if not orderable(a, b):
             raise Unsupported(f"ordering of {a!r}, {b!r}")
         return {ast.Lt: a < b, ast.LtE: a <= b, ast.Gt: a > b, ast.GtE: a >= b}[type(op)]
 
@@ -309,8 +324,9 @@ class PyEval(MiniEval):
                     out += str(v.value)
                 elif isinstance(v, ast.FormattedValue):
                     x = self.ev(v.value, env)
-                    if isinstance(x, Tok) and isinstance(x.attrs.get("__str__"), str):
-                        x = x.attrs["__str__"]
+                    if isinstance(x, Tok):
+                        # the printed form of a modelled object: `__str__` if the model gives one, else its name (as str() does)
+                        x = x.attrs["__str__"] if isinstance(x.attrs.get("__str__"), str) else x.name
                     if not isinstance(x, (str, int)):
                         raise Unsupported(f"f-string part {x!r}")
                     out += str(x)
@@ -608,6 +624,10 @@ class PyEval(MiniEval):
             if isinstance(st, ast.Expr) and isinstance(st.value, ast.Yield):
                 # generator functions: the yielded values are collected in env["__yields__"], in order
                 env.setdefault("__yields__", []).append(self.ev(st.value.value, env) if st.value.value is not None else None)
+                if callable(env.get("__on_yield__")):
+                    # a context manager written as a generator: the caller's model of the `with` body runs at the yield
+                    # (it may raise Raised: the exception is thrown into the generator at this point)
+                    env["__on_yield__"](self, env)
                 continue
             if isinstance(st, ast.Delete) and all(isinstance(t, ast.Subscript) for t in st.targets):
                 for t in st.targets:
@@ -809,6 +829,18 @@ class PyEval(MiniEval):
                         args.append(self.ev(a, env))
             return args
 
+        if fn in ("itertools.chain", "chain") and not node.keywords and not (fn in env and callable(env[fn])):
+            out_c: list = []
+            for part in A():
+                part = self.ordered(part)
+                if isinstance(part, PyIter):
+                    part = part.items
+                if isinstance(part, dict):
+                    part = list(part)
+                if not isinstance(part, (list, tuple)):
+                    raise Unsupported(f"itertools.chain over {part!r}")
+                out_c.extend(part)
+            return out_c
         if isinstance(node.func, ast.Attribute):
             recv = self.ev(node.func.value, env)
             m = node.func.attr
@@ -1014,6 +1046,24 @@ class PyEval(MiniEval):
                         acc = self.binop(ast.BitOr(), acc, x)
                 return acc
             raise Unsupported(f"reduce with {op!r}")
+        if fn == "sorted" and len(node.args) == 1 and isinstance(A()[0], (list, tuple)) and len(node.keywords) == 1 and node.keywords[0].arg == "key" \
+                and isinstance(node.keywords[0].value, ast.Call) and ast.unparse(node.keywords[0].value.func) in ("functools.cmp_to_key", "cmp_to_key") \
+                and len(node.keywords[0].value.args) == 1 and not node.keywords[0].value.keywords:
+            # sorted(xs, key=cmp_to_key(f)): the comparison function (a lambda or a followed function) is interpreted per pair
+            import functools as _ft
+            cmp_node = node.keywords[0].value.args[0]
+            probe = ast.Call(func=cmp_node, args=[ast.Name(id="__cmp_a__", ctx=ast.Load()), ast.Name(id="__cmp_b__", ctx=ast.Load())], keywords=[])
+            ast.copy_location(probe, node)
+            ast.fix_missing_locations(probe)
+            if not (isinstance(cmp_node, ast.Lambda) or self.is_followed_call(probe, env)):
+                raise Unsupported(f"cmp_to_key of {ast.unparse(cmp_node)}")
+
+            def _cmp(a_, b_):
+                r_ = self.ev(probe, {**env, "__cmp_a__": a_, "__cmp_b__": b_})
+                if not isinstance(r_, int) or isinstance(r_, bool):
+                    raise Unsupported(f"comparison function gives {r_!r}")
+                return r_
+            return sorted(list(A()[0]), key=_ft.cmp_to_key(_cmp))
         if fn == "sorted" and len(node.args) == 1 and isinstance(A()[0], (list, tuple, set, frozenset, dict)):
             xs = list(A()[0])
             kws = {k.arg: self.ev(k.value, env) for k in node.keywords if k.arg}
